@@ -21,6 +21,7 @@ EXPLANATION = (
     "validating setters (set_ae(.., allow_empty=False) / set_uid). (ac) the A-ASSOCIATE-AC result "
     "list is accepted + rejected, i.e. one per proposed context (C10). Not decided: validator "
     "semantics on arbitrary strings."
+    " Fourth session: (ac-results) also C10's one-result evaluation of the largest request PS3.8 allows."
 )
 
 
